@@ -29,18 +29,22 @@ Definition caveat := N.
 
 Record edge := { e_to : ver; e_crit : cset; e_origin : origin; e_fresh : fresh }.
 
-Definition edge_caveat (m : search_mode) (e : edge) : caveat :=
-  match e_origin e with
-  | OLocal _ false => CV_NonImportableAudit
-  | OExemption _ => if mode_eqb m PreferExemptions then CV_PreferredExemption else CV_Exemption
-  | OFreshExemption _ => CV_FreshExemption      (* `unreachable!()` for real edges; synthetic only *)
-  | OUnpublished _ =>
-      match m with
-      | PreferExemptions => if is_fresh (e_fresh e) then CV_Unpublished else CV_PreferredUnpublished
-      | _ => if is_fresh (e_fresh e) then CV_PreferredUnpublished else CV_Unpublished
-      end
-  | _ => match e_fresh e with Stale => CV_None | FreshPublisher => CV_FreshPublisher | Fresh => CV_FreshImport end
+(* the level comes from the source (Extracted.edge_caveat_src, translated arm by arm from search_for_path);
+   here only the model's origins and freshness values are mapped onto the source's vocabulary *)
+Definition okind_of (o : origin) : okind * bool :=
+  match o with
+  | OLocal _ b => (OK_LocalAudit, b)
+  | OImported _ _ => (OK_Imported, true)
+  | OWildcard _ _ _ => (OK_Wildcard, true)
+  | OTrusted _ => (OK_Trusted, true)
+  | OExemption _ => (OK_Exemption, true)
+  | OUnpublished _ => (OK_Unpublished, true)
+  | OFreshExemption _ => (OK_FreshExemption, true)
   end.
+Definition efresh_of (f : fresh) : efresh :=
+  match f with Stale => EF_Stale | FreshPublisher => EF_FreshPublisher | Fresh => EF_Fresh end.
+Definition edge_caveat (m : search_mode) (e : edge) : caveat :=
+  edge_caveat_src m (fst (okind_of (e_origin e))) (snd (okind_of (e_origin e))) (efresh_of (e_fresh e)).
 
 (* DirectedAuditGraph = SortedMap<Option<&VetVersion>, Vec<DeltaEdge>> *)
 Definition graph := list (ver * list edge).
